@@ -175,7 +175,10 @@ fn permitted(op: &str, input: &[u8], lo: &Outc, lo_alloc: bool, lo_half: bool, h
             return Some("R4 no-alloc collect_str");
         }
     }
-    if !lo_half && hi_half {
+    // R2 is about *decoding* a half float; operations that only step over items (skip, probe,
+    // ignored_any) never interpret a float and must not differ
+    let steps_over = op.starts_with("acc.skip") || op.starts_with("acc.probe") || op.starts_with("serde.ignored") || op.starts_with("serde.(ignored");
+    if !lo_half && hi_half && !steps_over {
         if lo.class == "type_mismatch" {
             if let Some(p) = lo.epos {
                 if input.get(p) == Some(&0xf9) {
